@@ -55,6 +55,11 @@ class TDict(Ty):
     def __init__(self, key, val): self.key = key; self.val = val
 
 
+class TExc(Ty):
+    """an exception instance of one of the listed classes (verification forks once per class)"""
+    def __init__(self, *names): self.names = tuple(names)
+
+
 class TRec(Ty):
     def __init__(self, **fields): self.fields = tuple(sorted(fields.items(), key=lambda kv: kv[0]))
 
@@ -221,10 +226,15 @@ def truthy(v):
     raise ToolLimit('truthiness of %r' % type(v).__name__)
 
 
+def none_payload(ty):
+    """the (irrelevant) payload of a None: one canonical constant per type, so that None == None also as an argument of an uninterpreted function"""
+    return mk_sym('none$' + repr(ty).replace(' ', ''), ty)
+
+
 def to_opt(v, elem_ty):
     """coerce v into VOpt of elem_ty"""
     if isinstance(v, VOpt): return v
-    if isinstance(v, VNone): return VOpt(z3.BoolVal(True), mk_sym('none!%d' % next(_fresh), elem_ty))
+    if isinstance(v, VNone): return VOpt(z3.BoolVal(True), none_payload(elem_ty))
     return VOpt(z3.BoolVal(False), v)
 
 
@@ -438,7 +448,7 @@ class Contract:
                  loops=None, prop=None, pure=False, invariant=(), locals=None, defaults=None,
                  is_property=False, name=None, assumed=False, names=None, reads=(), ghost_out=None,
                  shared=(), rely=(), suspends=False, next_raises=(), crash_invariant=(), escape_props=None,
-                 replay=None, observe=(), note=None, decreases=None, skip_args=(), fault_policy=None, frame_on_raise=False, merge_ifs=False, shards=1):
+                 replay=None, observe=(), note=None, decreases=None, skip_args=(), fault_policy=None, frame_on_raise=False, merge_ifs=False, shards=1, ghost_update=()):
         self.file = file; self.func = func; self.params = params; self.ret = ret
         self.name = name or func
         props = prop if prop is not None else ''
@@ -454,7 +464,7 @@ class Contract:
         self.next_raises = list(next_raises); self.crash_invariant = clauses(crash_invariant)
         self.escape_props = set(escape_props) if escape_props is not None else None
         self.replay = replay; self.observe = list(observe); self.note = note; self.decreases = decreases
-        self.skip_args = set(skip_args); self.fault_policy = fault_policy; self.frame_on_raise = frame_on_raise; self.merge_ifs = merge_ifs; self.shards = shards
+        self.skip_args = set(skip_args); self.fault_policy = fault_policy; self.frame_on_raise = frame_on_raise; self.merge_ifs = merge_ifs; self.shards = shards; self.ghost_update = list(ghost_update)
         if self.name in CONTRACTS: raise AssertionError('duplicate contract %s' % self.name)
         CONTRACTS[self.name] = self
 
@@ -514,7 +524,7 @@ def parts_of(ty, v):
 
 
 def fresh_none_payload(ty):
-    return mk_sym('none!%d' % next(_fresh), ty)
+    return none_payload(ty)
 
 
 # ----------------------------------------------------------------------------- heap access
@@ -581,3 +591,32 @@ def load_function(relpath, qualname):
             raise ToolLimit('%s not found in %s' % (qualname, relpath))
     seg = ast.get_source_segment(src, node)
     return node, seg, (node.lineno, node.end_lineno)
+
+
+def sync_defaults():
+    """default argument values are taken from the real signatures (literal defaults only), not from the contract files:
+    a changed default in /repo changes what every call site that omits the argument passes"""
+    notes = []
+    for c in CONTRACTS.values():
+        if not os.path.exists(os.path.join(REPO, c.file)): continue
+        try:
+            node, seg, lines = load_function(c.file, c.func)
+        except ToolLimit:
+            continue
+        if isinstance(node, ast.ClassDef): continue
+        a = node.args
+        pos = a.posonlyargs + a.args
+        pairs = list(zip(pos[len(pos) - len(a.defaults):], a.defaults)) + [(k, d) for k, d in zip(a.kwonlyargs, a.kw_defaults) if d is not None]
+        for arg, d in pairs:
+            if arg.arg not in c.params: continue
+            try:
+                val = ast.literal_eval(d)
+            except Exception:
+                continue
+            if isinstance(val, (bool, int, str, bytes)) or val is None:
+                old = c.defaults.get(arg.arg, '<none>')
+                if isinstance(old, V): continue
+                if old != val or type(old) is not type(val):
+                    notes.append('%s: default of %s is %r in the source (contract file said %r)' % (c.name, arg.arg, val, old))
+                c.defaults[arg.arg] = val
+    return notes
